@@ -152,6 +152,91 @@ Definition it_step (repaired : bool) (t : nat) (s : it_st) : option it_st :=
 Definition it_init : it_st := mkIt true 0 false false false 0 0 0.
 Definition it_ok (s : it_st) : bool := negb (it_uaf s).
 
+(* ================================================================== 2b. a FULL iterator walk over TWO client records (rfbserver.c:207-246, HEAD)
+   list = [R0; R1].  thread 0 = an iterating thread: it = rfbGetClientIterator; Next (-> R0); use; Next (advance: prev = R0,
+   next = R0->next, skip closed, IncrClientRef(next) - all under rfbClientListMutex; then the DEFERRED rfbDecrClientRef(prev)
+   outside the mutex); use; Next (-> NULL, DecrClientRef(prev)); rfbReleaseClientIterator.
+   thread 1 / thread 2 = R0's / R1's own thread in rfbClientConnectionGone at any moment: [LOCK(list); refCount == 0 ? unlink :
+   (UNLOCK; WAIT(deleteCond))]; UNLOCK; free.  "closed" (sock < 0) is set by the client thread before it enters the teardown.
+   One step = one critical section of rfbClientListMutex (the mutex itself is what fragment 2 models). *)
+Record iw_st := mkIw {
+  iw_in0 : bool; iw_in1 : bool;          (* record linked *)
+  iw_cl0 : bool; iw_cl1 : bool;          (* record closed (sock < 0) *)
+  iw_ref0 : nat; iw_ref1 : nat;
+  iw_fr0 : bool; iw_fr1 : bool;          (* record freed *)
+  iw_cur : nat;                          (* i->next: 0 = NULL, 1 = R0, 2 = R1 *)
+  iw_prev : nat;                         (* reference still to drop: 0 none, 1 = R0, 2 = R1 *)
+  iw_uaf : bool;
+  iw_pc0 : nat; iw_pc1 : nat; iw_pc2 : nat
+}.
+Scheme Equality for iw_st.
+Definition iw_freed (r : nat) (s : iw_st) : bool := match r with 1 => iw_fr0 s | 2 => iw_fr1 s | _ => false end.
+(* first open (or, for closedToo, any) listed record at or after position r (1 = R0, 2 = R1, 3 = end) *)
+Definition iw_first_open (r : nat) (s : iw_st) : nat :=
+  match r with
+  | 1 => if iw_in0 s && negb (iw_cl0 s) then 1 else if iw_in1 s && negb (iw_cl1 s) then 2 else 0
+  | 2 => if iw_in1 s && negb (iw_cl1 s) then 2 else 0
+  | _ => 0
+  end.
+Definition iw_incr (r : nat) (s : iw_st) : iw_st :=
+  match r with
+  | 1 => mkIw (iw_in0 s) (iw_in1 s) (iw_cl0 s) (iw_cl1 s) (S (iw_ref0 s)) (iw_ref1 s) (iw_fr0 s) (iw_fr1 s) (iw_cur s) (iw_prev s) (iw_uaf s || iw_fr0 s) (iw_pc0 s) (iw_pc1 s) (iw_pc2 s)
+  | 2 => mkIw (iw_in0 s) (iw_in1 s) (iw_cl0 s) (iw_cl1 s) (iw_ref0 s) (S (iw_ref1 s)) (iw_fr0 s) (iw_fr1 s) (iw_cur s) (iw_prev s) (iw_uaf s || iw_fr1 s) (iw_pc0 s) (iw_pc1 s) (iw_pc2 s)
+  | _ => s
+  end.
+Definition iw_decr (r : nat) (s : iw_st) : iw_st :=
+  match r with
+  | 1 => mkIw (iw_in0 s) (iw_in1 s) (iw_cl0 s) (iw_cl1 s) (pred (iw_ref0 s)) (iw_ref1 s) (iw_fr0 s) (iw_fr1 s) (iw_cur s) (iw_prev s) (iw_uaf s || iw_fr0 s) (iw_pc0 s) (iw_pc1 s) (iw_pc2 s)
+  | 2 => mkIw (iw_in0 s) (iw_in1 s) (iw_cl0 s) (iw_cl1 s) (iw_ref0 s) (pred (iw_ref1 s)) (iw_fr0 s) (iw_fr1 s) (iw_cur s) (iw_prev s) (iw_uaf s || iw_fr1 s) (iw_pc0 s) (iw_pc1 s) (iw_pc2 s)
+  | _ => s
+  end.
+Definition iw_set0 (cur prev : nat) (uaf : bool) (pc : nat) (s : iw_st) : iw_st :=
+  mkIw (iw_in0 s) (iw_in1 s) (iw_cl0 s) (iw_cl1 s) (iw_ref0 s) (iw_ref1 s) (iw_fr0 s) (iw_fr1 s) cur prev uaf pc (iw_pc1 s) (iw_pc2 s).
+(* rfbClientIteratorNext, the part under the list mutex: where does i->next go, reference taken; prev remembered.
+   Reading i->next->next touches the record i->next (use-after-free if it was freed). *)
+Definition iw_next_locked (s : iw_st) : iw_st :=
+  let prev := iw_cur s in
+  let start := match prev with 0 => 1 | 1 => 2 | _ => 3 end in
+  let nxt := iw_first_open start s in
+  iw_incr nxt (iw_set0 nxt prev (iw_uaf s || iw_freed prev s) (S (iw_pc0 s)) s).
+Definition iw_teardown_step (waits : bool) (r : nat) (pc : nat) (s : iw_st) : option iw_st :=
+  let setpc v (x : iw_st) := match r with
+     | 1 => mkIw (iw_in0 x) (iw_in1 x) (iw_cl0 x) (iw_cl1 x) (iw_ref0 x) (iw_ref1 x) (iw_fr0 x) (iw_fr1 x) (iw_cur x) (iw_prev x) (iw_uaf x) (iw_pc0 x) v (iw_pc2 x)
+     | _ => mkIw (iw_in0 x) (iw_in1 x) (iw_cl0 x) (iw_cl1 x) (iw_ref0 x) (iw_ref1 x) (iw_fr0 x) (iw_fr1 x) (iw_cur x) (iw_prev x) (iw_uaf x) (iw_pc0 x) (iw_pc1 x) v end in
+  match pc with
+  | 0 => Some (setpc 1 (match r with                                                    (* the connection ends: sock = -1 *)
+          | 1 => mkIw (iw_in0 s) (iw_in1 s) true (iw_cl1 s) (iw_ref0 s) (iw_ref1 s) (iw_fr0 s) (iw_fr1 s) (iw_cur s) (iw_prev s) (iw_uaf s) (iw_pc0 s) (iw_pc1 s) (iw_pc2 s)
+          | _ => mkIw (iw_in0 s) (iw_in1 s) (iw_cl0 s) true (iw_ref0 s) (iw_ref1 s) (iw_fr0 s) (iw_fr1 s) (iw_cur s) (iw_prev s) (iw_uaf s) (iw_pc0 s) (iw_pc1 s) (iw_pc2 s) end))
+  | 1 => if negb waits || ((match r with 1 => iw_ref0 s | _ => iw_ref1 s end) =? 0)    (* under the list mutex: refCount == 0 -> unlink *)
+         then Some (setpc 2 (match r with
+          | 1 => mkIw false (iw_in1 s) (iw_cl0 s) (iw_cl1 s) (iw_ref0 s) (iw_ref1 s) (iw_fr0 s) (iw_fr1 s) (iw_cur s) (iw_prev s) (iw_uaf s) (iw_pc0 s) (iw_pc1 s) (iw_pc2 s)
+          | _ => mkIw (iw_in0 s) false (iw_cl0 s) (iw_cl1 s) (iw_ref0 s) (iw_ref1 s) (iw_fr0 s) (iw_fr1 s) (iw_cur s) (iw_prev s) (iw_uaf s) (iw_pc0 s) (iw_pc1 s) (iw_pc2 s) end))
+         else None                                                                       (* WAIT(deleteCond) *)
+  | 2 => Some (setpc 3 (match r with                                                    (* ... free(cl) *)
+          | 1 => mkIw (iw_in0 s) (iw_in1 s) (iw_cl0 s) (iw_cl1 s) (iw_ref0 s) (iw_ref1 s) true (iw_fr1 s) (iw_cur s) (iw_prev s) (iw_uaf s) (iw_pc0 s) (iw_pc1 s) (iw_pc2 s)
+          | _ => mkIw (iw_in0 s) (iw_in1 s) (iw_cl0 s) (iw_cl1 s) (iw_ref0 s) (iw_ref1 s) (iw_fr0 s) true (iw_cur s) (iw_prev s) (iw_uaf s) (iw_pc0 s) (iw_pc1 s) (iw_pc2 s) end))
+  | _ => None
+  end.
+(* waits = false: a teardown that does not wait for the references (only to show that the safety theorem can fail) *)
+Definition iw_step (waits : bool) (t : nat) (s : iw_st) : option iw_st :=
+  match t with
+  | 0 => match iw_pc0 s with
+         | 0 | 3 | 6 => Some (iw_next_locked s)                                          (* Next: critical section *)
+         | 1 | 4 | 7 => Some (iw_set0 (iw_cur s) 0 (iw_uaf s) (S (iw_pc0 s)) (iw_decr (iw_prev s) s))   (* deferred DecrClientRef(prev) *)
+         | 2 | 5 | 8 => if iw_cur s =? 0
+                        then Some (iw_set0 0 0 (iw_uaf s) 9 s)                           (* Next returned NULL: the caller's loop ends *)
+                        else Some (iw_set0 (iw_cur s) (iw_prev s) (iw_uaf s || iw_freed (iw_cur s) s) (S (iw_pc0 s)) s)   (* the caller uses cl *)
+         | 9 => Some (iw_set0 0 0 (iw_uaf s) 10 (iw_decr (iw_cur s) s))                  (* rfbReleaseClientIterator *)
+         | _ => None
+         end
+  | 1 => iw_teardown_step waits 1 (iw_pc1 s) s
+  | 2 => iw_teardown_step waits 2 (iw_pc2 s) s
+  | _ => None
+  end.
+Definition iw_init : iw_st := mkIw true true false false 0 0 false false 0 0 false 0 0 0.
+Definition iw_final (s : iw_st) : bool := (iw_pc0 s =? 10) && (iw_pc1 s =? 3) && (iw_pc2 s =? 3).
+Definition iw_ok (s : iw_st) : bool := negb (iw_uaf s).
+
 (* ================================================================== 3. shutdown (main.c, sockets.c)
    ONE client record.
    thread 0 = application: rfbShutdownServer (rfbCloseClient(cl); pthread_join(client_thread)) and then
@@ -452,48 +537,62 @@ Record nf_st := mkNf {
   nf_send : nat;         (* X's sendMutex: 0 free, 1 held by the application, 2 held by X's own thread *)
   nf_badunlock : bool;   (* UNLOCK of a mutex the caller does not hold *)
   nf_freed : bool;
+  nf_locked : bool;      (* notes/fix_C13_5.diff: X is in the array of clients that pass 1 locked (and referenced) *)
   nf_pcA : nat; nf_pcB : nat
 }.
 Scheme Equality for nf_st.
-Definition NF_APP_DONE : nat := 7.
+Definition NF_APP_DONE : nat := 8.
 Definition NF_B_DONE : nat := 5.
-Definition nf_step (mode : nat) (t : nat) (s : nf_st) : option nf_st :=
+Definition nf_setA (ref send : nat) (bad locked : bool) (pc : nat) (s : nf_st) : nf_st :=
+  mkNf (nf_sock s) (nf_inlist s) ref send bad (nf_freed s) locked pc (nf_pcB s).
+Definition nf_setB (sock inl : bool) (send : nat) (freed : bool) (pc : nat) (s : nf_st) : nf_st :=
+  mkNf sock inl (nf_ref s) send (nf_badunlock s) freed (nf_locked s) (nf_pcA s) pc.
+(* fixed = notes/fix_C13_5.diff (NOT in /repo): pass 1 also takes a reference on every client it locks and remembers it;
+   the mutexes are released (and the references dropped) for exactly the remembered clients after pass 3 *)
+Definition nf_step (fixed : bool) (mode : nat) (t : nat) (s : nf_st) : option nf_st :=
   let seen := nf_inlist s && nf_sock s in
+  let keepA := nf_setA (nf_ref s) (nf_send s) (nf_badunlock s) (nf_locked s) in
   match t with
   | 0 => match nf_pcA s with
-         | 0 => if seen then Some (mkNf (nf_sock s) (nf_inlist s) (S (nf_ref s)) (nf_send s) (nf_badunlock s) (nf_freed s) 1 (nf_pcB s))
-                else Some (mkNf (nf_sock s) (nf_inlist s) (nf_ref s) (nf_send s) (nf_badunlock s) (nf_freed s) 3 (nf_pcB s))        (* pass 1: Next *)
-         | 1 => if nf_send s =? 0 then Some (mkNf (nf_sock s) (nf_inlist s) (nf_ref s) 1 (nf_badunlock s) (nf_freed s) 2 (nf_pcB s)) else None   (* LOCK(sendMutex) *)
-         | 2 => Some (mkNf (nf_sock s) (nf_inlist s) (pred (nf_ref s)) (nf_send s) (nf_badunlock s) (nf_freed s) 3 (nf_pcB s))       (* Next = NULL: reference dropped *)
-         | 3 => Some (mkNf (nf_sock s) (nf_inlist s) (nf_ref s) (nf_send s) (nf_badunlock s) (nf_freed s) 4 (nf_pcB s))              (* cursorMutex, swap *)
-         | 4 => if seen then Some (mkNf (nf_sock s) (nf_inlist s) (S (nf_ref s)) (nf_send s) (nf_badunlock s) (nf_freed s) 5 (nf_pcB s))
-                else Some (mkNf (nf_sock s) (nf_inlist s) (nf_ref s) (nf_send s) (nf_badunlock s) (nf_freed s) NF_APP_DONE (nf_pcB s)) (* pass 3: Next *)
-         | 5 => if nf_send s =? 1
-                then Some (mkNf (nf_sock s) (nf_inlist s) (nf_ref s) 0 (nf_badunlock s) (nf_freed s) 6 (nf_pcB s))                   (* UNLOCK(sendMutex) *)
-                else Some (mkNf (nf_sock s) (nf_inlist s) (nf_ref s) (nf_send s) true (nf_freed s) 6 (nf_pcB s))                     (* ... of a mutex never locked *)
-         | 6 => Some (mkNf (nf_sock s) (nf_inlist s) (pred (nf_ref s)) (nf_send s) (nf_badunlock s) (nf_freed s) NF_APP_DONE (nf_pcB s))
+         | 0 => if seen then Some (nf_setA (S (nf_ref s)) (nf_send s) (nf_badunlock s) (nf_locked s) 1 s)
+                else Some (keepA 3 s)                                                                        (* pass 1: Next *)
+         | 1 => if nf_send s =? 0
+                then Some (nf_setA (if fixed then S (nf_ref s) else nf_ref s) 1 (nf_badunlock s) fixed 2 s)   (* LOCK(sendMutex) [; IncrClientRef; remember] *)
+                else None
+         | 2 => Some (nf_setA (pred (nf_ref s)) (nf_send s) (nf_badunlock s) (nf_locked s) 3 s)              (* Next = NULL: the iterator's reference is dropped *)
+         | 3 => Some (keepA 4 s)                                                                             (* cursorMutex, swap *)
+         | 4 => if seen then Some (nf_setA (S (nf_ref s)) (nf_send s) (nf_badunlock s) (nf_locked s) 5 s)
+                else Some (keepA 7 s)                                                                        (* pass 3: Next *)
+         | 5 => if fixed then Some (keepA 6 s)                                                               (* per-client update *)
+                else if nf_send s =? 1
+                     then Some (nf_setA (nf_ref s) 0 (nf_badunlock s) (nf_locked s) 6 s)                     (* ... UNLOCK(sendMutex) *)
+                     else Some (nf_setA (nf_ref s) (nf_send s) true (nf_locked s) 6 s)                       (* ... of a mutex never locked *)
+         | 6 => Some (nf_setA (pred (nf_ref s)) (nf_send s) (nf_badunlock s) (nf_locked s) 7 s)              (* Next = NULL *)
+         | 7 => if fixed && nf_locked s
+                then Some (nf_setA (pred (nf_ref s)) 0 (nf_badunlock s || negb (nf_send s =? 1)) false NF_APP_DONE s)   (* UNLOCK; DecrClientRef for the remembered client *)
+                else Some (keepA NF_APP_DONE s)
          | _ => None
          end
   | 1 => match mode with
          | 0 => match nf_pcB s with
-                | 0 => Some (mkNf false (nf_inlist s) (nf_ref s) (nf_send s) (nf_badunlock s) (nf_freed s) (nf_pcA s) 1)              (* close socket; cl->sock = -1 *)
+                | 0 => Some (nf_setB false (nf_inlist s) (nf_send s) (nf_freed s) 1 s)                        (* close socket; cl->sock = -1 *)
                 | 1 => if nf_ref s =? 0
-                       then Some (mkNf (nf_sock s) false (nf_ref s) (nf_send s) (nf_badunlock s) (nf_freed s) (nf_pcA s) 2)            (* refCount = 0: unlink *)
-                       else None                                                                                                      (* WAIT(deleteCond) *)
-                | 2 => Some (mkNf (nf_sock s) (nf_inlist s) (nf_ref s) (nf_send s) (nf_badunlock s) (nf_freed s) (nf_pcA s) 3)        (* clientGoneHook *)
-                | 3 => if nf_send s =? 0 then Some (mkNf (nf_sock s) (nf_inlist s) (nf_ref s) 2 (nf_badunlock s) (nf_freed s) (nf_pcA s) 4) else None   (* LOCK(cl->sendMutex) *)
-                | 4 => Some (mkNf (nf_sock s) (nf_inlist s) (nf_ref s) 0 (nf_badunlock s) true (nf_pcA s) NF_B_DONE)                  (* UNLOCK; TINI; free(cl) *)
+                       then Some (nf_setB (nf_sock s) false (nf_send s) (nf_freed s) 2 s)                     (* refCount = 0: unlink *)
+                       else None                                                                             (* WAIT(deleteCond) *)
+                | 2 => Some (nf_setB (nf_sock s) (nf_inlist s) (nf_send s) (nf_freed s) 3 s)                  (* clientGoneHook *)
+                | 3 => if nf_send s =? 0 then Some (nf_setB (nf_sock s) (nf_inlist s) 2 (nf_freed s) 4 s) else None   (* LOCK(cl->sendMutex) *)
+                | 4 => Some (nf_setB (nf_sock s) (nf_inlist s) 0 true NF_B_DONE s)                            (* UNLOCK; TINI; free(cl) *)
                 | _ => None
                 end
          | _ => match nf_pcB s with
-                | 0 => Some (mkNf true true (nf_ref s) (nf_send s) (nf_badunlock s) (nf_freed s) (nf_pcA s) NF_B_DONE)                (* rfbNewClient links X *)
+                | 0 => Some (nf_setB true true (nf_send s) (nf_freed s) NF_B_DONE s)                          (* rfbNewClient links X *)
                 | _ => None
                 end
          end
   | _ => None
   end.
 Definition nf_init (mode : nat) : nf_st :=
-  match mode with 0 => mkNf true true 0 0 false false 0 0 | _ => mkNf false false 0 0 false false 0 0 end.
+  match mode with 0 => mkNf true true 0 0 false false false 0 0 | _ => mkNf false false 0 0 false false false 0 0 end.
 Definition nf_final (s : nf_st) : bool := (nf_pcA s =? NF_APP_DONE) && (nf_pcB s =? NF_B_DONE).
 (* what must hold once rfbNewFramebuffer has returned: no mutex misuse, X's sendMutex is not left with the application *)
 Definition nf_ok (s : nf_st) : bool := negb (nf_badunlock s) && (negb (nf_pcA s =? NF_APP_DONE) || negb (nf_send s =? 1)).
